@@ -14,6 +14,22 @@ import (
 // Parser can parse lua statements or expressions
 type Parser struct {
 	scanner Scanner
+	depth   int // nesting depth of the syntactic construct being parsed
+}
+
+// The parser is recursive: the nesting of expressions and blocks is limited so
+// that a chunk cannot exhaust the Go stack (which cannot be recovered from).
+const maxSyntaxLevels = 200
+
+func (p *Parser) enterLevel(t *token.Token) {
+	p.depth++
+	if p.depth > maxSyntaxLevels {
+		panic(Error{Got: t, Expected: "fewer syntax levels (chunk has too many syntax levels)"})
+	}
+}
+
+func (p *Parser) leaveLevel() {
+	p.depth--
 }
 
 type Scanner interface {
@@ -59,7 +75,7 @@ func ParseExp(scanner Scanner) (exp ast.ExpNode, err error) {
 			}
 		}
 	}()
-	parser := &Parser{scanner}
+	parser := &Parser{scanner: scanner}
 	var t *token.Token
 	exp, t = parser.Exp(parser.Scan())
 	expectType(t, token.EOF, "<eof>")
@@ -79,7 +95,7 @@ func ParseChunk(scanner Scanner) (stat ast.BlockStat, err error) {
 			}
 		}
 	}()
-	parser := &Parser{scanner}
+	parser := &Parser{scanner: scanner}
 	var t *token.Token
 	stat, t = parser.Block(parser.Scan())
 	expectType(t, token.EOF, "<eof>")
@@ -278,6 +294,8 @@ func (p *Parser) FunctionStat(*token.Token) (ast.Stat, *token.Token) {
 // consumed. Returns the token that closes the block (e.g. "end"). So the caller
 // should check that this is the right kind of closing token.
 func (p *Parser) Block(t *token.Token) (ast.BlockStat, *token.Token) {
+	p.enterLevel(t)
+	defer p.leaveLevel()
 	var stats []ast.Stat
 	var next ast.Stat
 	for {
@@ -357,6 +375,8 @@ func (p *Parser) Exp(t *token.Token) (ast.ExpNode, *token.Token) {
 // prefix expression or a power operation (right associatively composed). In
 // other words, any expression that doesn't contain a binary operator.
 func (p *Parser) ShortExp(t *token.Token) (ast.ExpNode, *token.Token) {
+	p.enterLevel(t)
+	defer p.leaveLevel()
 	var exp ast.ExpNode
 	switch t.Type {
 	case token.KwNil:
